@@ -282,10 +282,78 @@ def migShapeAt (ss : List Slot) : Bool :=
 
 def migShapeOk (S : Schema) : Bool := S.msgs.all (fun m => migShapeAt m.slots)
 
+/-- what `migrateRes` needs to keep a decoder-shaped resource decoder-shaped: fields 2 and 1000 are different repeated slots of the
+SAME element type (`[]*ScopeX` both) -/
+def migShape2At (ss : List Slot) : Bool :=
+  match slotIdx ss 1000 with
+  | none => true
+  | some d =>
+    match slotIdx ss 2 with
+    | none => true
+    | some i =>
+      i != d &&
+      (match ss[d]?, ss[i]? with
+       | some (.one fd), some (.one fi) => fd.card == .rep && fi.card == .rep && fd.ty == fi.ty
+       | _, _ => false)
+
+def migShape2Ok (S : Schema) : Bool := S.msgs.all (fun m => migShape2At m.slots)
+
 /-- the first field of a root that has resources is a repeated message list -/
 def rootShapeOk (S : Schema) : Bool :=
   S.msgs.all (fun m => match m.slots with
     | .one f :: _ => (match f.ty with | .msg _ => f.card == .rep || f.card == .req | _ => true)
     | _ => true)
+
+
+/-! ## per-`case` reader table: which field a label assigns and which `Read*` helper reads it -/
+
+/-- the hand-written reader function that reads message `sub` -/
+def msgReaderOf (S : Schema) (sub : Nat) : String :=
+  match (S.msgs[sub]?).map (·.name) with
+  | some "common.KeyValue" => "json.ReadAttribute"
+  | some "common.AnyValue" => "json.ReadValue"
+  | some "resource.Resource" => "json.ReadResource"
+  | some "common.InstrumentationScope" => "json.ReadScope"
+  | some "common.ArrayValue" => "readArray"
+  | some "common.KeyValueList" => "readKvlistValue"
+  | _ => "unmarshalJsoniter"
+
+/-- the helpers `readLeaf` / `fromJ` stand for, by type (`pdata/internal/json/number.go`, `enum.go`, jsoniter): this is the model's
+"reader by type" assumption made explicit -/
+def elemCalls (S : Schema) : Ty → List String
+  | .u64 | .fixed64 => ["json.ReadUint64"]
+  | .i64 | .sfixed64 => ["json.ReadInt64"]
+  | .u32 | .fixed32 => ["json.ReadUint32"]
+  | .i32 => ["json.ReadInt32"]
+  | .s32 => ["iter.ReadInt32"]
+  | .bool => ["iter.ReadBool"]
+  | .enum _ => ["json.ReadEnumValue"]
+  | .double => ["json.ReadFloat64"]
+  | .string => ["iter.ReadString"]
+  | .bytes => ["base64.DecodeString", "iter.ReadString"]
+  | .id _ => ["UnmarshalJSON", "iter.ReadString"]
+  | .msg sub => [msgReaderOf S sub]
+
+def wantCalls (S : Schema) (f : Field) (alt : Bool) : List String :=
+  if !alt && (f.card == .rep || f.card == .packed) then "iter.ReadArrayCB" :: elemCalls S f.ty else elemCalls S f.ty
+
+def fieldsAlt (m : Msg) : List (Field × Bool) :=
+  m.slots.flatMap (fun s => match s with | .one f => [(f, false)] | .oneof _ alts => alts.map (·, true))
+
+def sameSet (a b : List String) : Bool := a.all (b.contains ·) && b.all (a.contains ·)
+
+/-- one `case` clause agrees with the schema: it assigns the field whose JSON / proto names are exactly its labels, through the
+helper(s) the model assumes for the field's type and cardinality -/
+def caseOk (S : Schema) (msg : Msg) (c : List String × String × List String) : Bool :=
+  match (fieldsAlt msg).find? (fun p => p.1.go == c.2.1) with
+  | none => false
+  | some (f, alt) => sameSet c.1 [f.json, f.orig] && sameSet c.2.2 (wantCalls S f alt)
+
+/-- the regenerated per-clause table agrees with the schema, and its labels are exactly the `jsonKeys` of the message -/
+def readersOk (S : Schema) (R : List (String × List (List String × String × List String))) : Bool :=
+  R.length == S.msgs.length &&
+  R.all (fun r => match S.msgs.find? (fun m => m.name == r.1) with
+    | none => false
+    | some msg => r.2.all (caseOk S msg) && (r.2.flatMap (·.1)) == msg.jsonKeys)
 
 end OtelVerif.C08
